@@ -339,8 +339,9 @@ func SinglePos1(glyphs []uint16, xAdvance int) []byte {
 // Lookup is one lookup of the lookup list.
 type Lookup struct {
 	Type      int // GSUB: 1 single, 2 multiple, 3 alternate, 4 ligature, 5 context, 6 chain, 8 reverse; GPOS: 1 single, 2 pair, 7 context, 8 chain
-	Flag      int // lookup flags (0x0008 IgnoreMarks, ...); 0x0010 is not supported
+	Flag      int // lookup flags (0x0002 IgnoreBaseGlyphs, 0x0004 IgnoreLigatures, 0x0008 IgnoreMarks, 0x0010 UseMarkFilteringSet, 0xFF00 MarkAttachmentType)
 	Subtables [][]byte
+	MarkSet   int // index of the GDEF mark glyph set, written when Flag has 0x0010
 }
 
 // Feature lists the lookups of one feature tag.
@@ -425,9 +426,6 @@ func (l *Layout) Bytes() ([]byte, error) {
 	for _, lk := range l.Lookups {
 		slots = append(slots, ll.len())
 		ll.u16(0)
-		if lk.Flag&0x0010 != 0 {
-			return nil, fmt.Errorf("synthfont: mark filtering sets are not supported")
-		}
 		var lb buf
 		lb.u16(lk.Type)
 		lb.u16(lk.Flag)
@@ -436,6 +434,9 @@ func (l *Layout) Bytes() ([]byte, error) {
 		for range lk.Subtables {
 			ss = append(ss, lb.len())
 			lb.u16(0)
+		}
+		if lk.Flag&0x0010 != 0 {
+			lb.u16(lk.MarkSet) // markFilteringSet follows the subtable offsets
 		}
 		if err := lb.children(0, ss, lk.Subtables); err != nil {
 			return nil, err
